@@ -10,6 +10,39 @@ from sqlglot.dialects.trino import Trino
 from sqlglot.dialects.hive import Hive
 
 
+def _tokenize_as_hive(tokens: list[Token]) -> bool:
+    if len(tokens) < 2:
+        return False
+
+    first, second, *rest = tokens
+
+    first_type = first.token_type
+    first_text = first.text.upper()
+    second_type = second.token_type
+    second_text = second.text.upper()
+
+    if first_type in (TokenType.DESCRIBE, TokenType.SHOW) or first_text == "MSCK REPAIR":
+        return True
+
+    if first_type in (TokenType.ALTER, TokenType.CREATE, TokenType.DROP):
+        if second_text in ("DATABASE", "EXTERNAL", "SCHEMA"):
+            return True
+        if second_type == TokenType.VIEW:
+            return False
+
+        return all(t.token_type != TokenType.SELECT for t in rest)
+
+    return False
+
+
+# Athena extensions to Trino's tokenizer
+class _TrinoTokenizer(Trino.Tokenizer):
+    KEYWORDS = {
+        **Trino.Tokenizer.KEYWORDS,
+        "UNLOAD": TokenType.COMMAND,
+    }
+
+
 class Athena(Dialect):
     """
     Over the years, it looks like AWS has taken various execution engines, bolted on AWS-specific
@@ -84,36 +117,3 @@ class Athena(Dialect):
     Parser = AthenaParser
 
     Generator = AthenaGenerator
-
-
-def _tokenize_as_hive(tokens: list[Token]) -> bool:
-    if len(tokens) < 2:
-        return False
-
-    first, second, *rest = tokens
-
-    first_type = first.token_type
-    first_text = first.text.upper()
-    second_type = second.token_type
-    second_text = second.text.upper()
-
-    if first_type in (TokenType.DESCRIBE, TokenType.SHOW) or first_text == "MSCK REPAIR":
-        return True
-
-    if first_type in (TokenType.ALTER, TokenType.CREATE, TokenType.DROP):
-        if second_text in ("DATABASE", "EXTERNAL", "SCHEMA"):
-            return True
-        if second_type == TokenType.VIEW:
-            return False
-
-        return all(t.token_type != TokenType.SELECT for t in rest)
-
-    return False
-
-
-# Athena extensions to Trino's tokenizer
-class _TrinoTokenizer(Trino.Tokenizer):
-    KEYWORDS = {
-        **Trino.Tokenizer.KEYWORDS,
-        "UNLOAD": TokenType.COMMAND,
-    }
